@@ -2,7 +2,7 @@
    Statements over the interleaving model (Model/RelaySys.v): every schedule, any number of
    session / deny / allow / websocket-admission / disconnect threads over any bookings, plus the
    crossbar's deny loop. Each is closed by [exact] of a lemma of Proofs/RelaySys_proofs.v. *)
-From Relay Require Import Base.Prelude Model.RelaySys Proofs.RelaySys_proofs Proofs.RelaySys_global.
+From Relay Require Import Base.Prelude Model.RelaySys Model.HandlerIR Proofs.RelaySys_proofs Proofs.RelaySys_global Proofs.HandlerIR_proofs.
 
 (* whatever the interleaving: once everything has run to completion (every handler finished, every
    deny notification processed), a booking on the deny list has no live connection *)
@@ -120,6 +120,74 @@ Proof.
   cbv zeta. split; [repeat constructor|]. vm_compute. repeat split.
   intros [|[|[|[|[|j]]]]] e H; cbn in H; discriminate.
 Qed.
+
+(* ---- the static half of the tie to the Go handlers ----
+   Model/HandlerIR.v writes the thread programs of this model as the handlers' sequences of store operations, one group
+   per program counter; translator/handlers regenerates those sequences (and the scheduling points that delimit the
+   steps) from internal/access/access.go and internal/crossbar/crossbar.go on every run and Gen/HandlerGen.v carries
+   the obligation that they are equal (gen_handlers_follow_the_programs). The theorems here say what the programs mean:
+   a thread whose counter is pc performs exactly group pc - with the meaning group_sem gives it - and nothing else
+   changes in the stores; past its program a thread does not move. *)
+Theorem C07_session_follows_program :
+  forall s i b pc st g,
+    thr s i = Some (TSession b pc st) -> nth_error program_session pc = Some g ->
+    exists s', tstep s i = Some s' /\ exists s0, group_sem g i b 0 0 s = Some s0 /\ same_stores s' s0.
+Proof. exact session_follows_program. Qed.
+Print Assumptions C07_session_follows_program.
+
+Theorem C07_deny_follows_program :
+  forall s i b e pc g,
+    thr s i = Some (TDeny b e pc) -> nth_error program_deny pc = Some g ->
+    exists s', tstep s i = Some s' /\ exists s0, group_sem g i b e 0 s = Some s0 /\ same_stores s' s0.
+Proof. exact deny_follows_program. Qed.
+Print Assumptions C07_deny_follows_program.
+
+Theorem C07_allow_follows_program :
+  forall s i b pc g,
+    thr s i = Some (TAllow b pc) -> nth_error program_allow pc = Some g ->
+    exists s', tstep s i = Some s' /\ exists s0, group_sem g i b 0 0 s = Some s0 /\ same_stores s' s0.
+Proof. exact allow_follows_program. Qed.
+Print Assumptions C07_allow_follows_program.
+
+Theorem C07_ws_follows_program :
+  forall s i c pc tok g,
+    thr s i = Some (TWs c pc tok) -> nth_error program_ws pc = Some g -> (pc = 0 \/ exists b, tok = Some b) ->
+    exists s', tstep s i = Some s' /\
+      exists s0, group_sem g i (match tok with Some b => b | None => 0%N end) 0 c s = Some s0 /\ same_stores s' s0.
+Proof. exact ws_follows_program. Qed.
+Print Assumptions C07_ws_follows_program.
+
+Theorem C07_drop_follows_program :
+  forall s i k pc g,
+    thr s i = Some (TLeave k pc) -> nth_error program_drop pc = Some g ->
+    exists s', tstep s i = Some s' /\ exists s0, group_sem g k 0 0 0 s = Some s0 /\ same_stores s' s0.
+Proof. exact drop_follows_program. Qed.
+Print Assumptions C07_drop_follows_program.
+
+Theorem C07_past_the_program_nothing_moves :
+  forall s i t,
+    thr s i = Some t ->
+    match t with
+    | TSession _ pc _ => length program_session <= pc
+    | TDeny _ _ pc => length program_deny <= pc
+    | TAllow _ pc => length program_allow <= pc
+    | TWs _ pc _ => length program_ws <= pc
+    | TLeave _ pc => length program_drop <= pc
+    | TPrune _ pc => 1 <= pc
+    end -> tstep s i = None.
+Proof. exact past_the_program_nothing_moves. Qed.
+Print Assumptions C07_past_the_program_nothing_moves.
+
+(* non-vacuity: the check that compares the source with the programs is not trivially true - a deny handler that
+   notifies the crossbar BEFORE purging the codes, or one that loses a scheduling point, is rejected *)
+Example C07_handlers_ok_rejects :
+  handlers_ok [("session", [HHook "a"; HOp "DenyStore.AllowIfNotDenied"; HHook "b"; HOp "CodeStore.SubmitToken"; HHook "c"]);
+               ("deny", [HHook "a"; HOp "DenyStore.Deny"; HHook "b"; HSend "DenyChannel"; HHook "c"; HOp "CodeStore.DeleteByBookingID"; HHook "d"]);
+               ("allow", [HHook "a"; HOp "DenyStore.Allow"; HHook "b"]);
+               ("ws", [HHook "a"; HOp "CodeStore.ExchangeCode"; HOp "dcs.Add"; HHook "b"; HOp "DenyStore.IsDenied"; HOp "dcs.DeleteChild"; HHook "c"; HSend "hub.register"; HHook "d"]);
+               ("drop", [HOp "dcs.DeleteChild"; HHook "a"]); ("denyloop", [HHook "a"; HOp "dcs.DeleteAndCloseParent"; HHook "b"])]%string = false
+  /\ handlers_ok [("session", [HHook "a"; HOp "DenyStore.AllowIfNotDenied"; HOp "CodeStore.SubmitToken"; HHook "c"])]%string = false.
+Proof. vm_compute. split; reflexivity. Qed.
 
 (* non-vacuity: a racing schedule that ends quiescent with booking 1 denied, a connection that had
    joined and a deny that closed it *)
